@@ -615,6 +615,147 @@ def prefs_strategy(tier: str):
     return build()
 
 
+# ------------------------------------------------------- host key choice ---
+
+HK_ALGS = {'ed25519': ['ssh-ed25519'], 'ecdsa': ['ecdsa-sha2-nistp256'],
+           'rsa': ['rsa-sha2-256', 'rsa-sha2-512', 'ssh-rsa']}
+
+
+def parse_reply_algs(records):
+    """(host key type, signature algorithm) from the cleartext KEX reply of
+    the first exchange"""
+
+    for rec in records[1:]:
+        payload = unframe(rec)
+        if payload is None or not payload:
+            continue
+        if payload[0] == 21:
+            return None
+        if payload[0] in (31, 33):
+            try:
+                r = Reader(payload, 1)
+                ks = r.string()
+                ktype = Reader(ks).string()
+                # the signature is the last field
+                fields = [ks]
+                while not r.end():
+                    fields.append(r.string())
+                sig_alg = Reader(fields[-1]).string()
+                return ktype.decode(), sig_alg.decode()
+            except WireError:
+                return None
+    return None
+
+
+def run_hostkey(case) -> CaseResult:
+    """The server host key algorithm is negotiated too: first name on the
+    client's list for which the server has a key"""
+
+    skeys = [memwire.key('host-' + k, {'ed25519': 'ssh-ed25519',
+                                       'ecdsa': 'ecdsa-sha2-nistp256',
+                                       'rsa': 'ssh-rsa'}[k])
+             for k in case['server_keys']]
+    server_algs = [a for k in case['server_keys'] for a in HK_ALGS[k]]
+    client_list = case['client_algs']
+    want = next((a for a in client_list if a in server_algs), None)
+    labels = ['peer:' + case['peer'], 'first-choice' if want and
+              want == client_list[0] else 'later-choice' if want
+              else 'no-common']
+
+    if case['peer'] == 'asyncssh':
+        pair = Pair({'server_host_keys': skeys},
+                    {'server_host_key_algs': client_list})
+        h = pair.h
+        try:
+            pair.start()
+            h.pump_until(pair.copts.waiter.done)
+            h.pump()
+            w = pair.copts.waiter
+            ok = w.done() and w.exception() is None
+
+            if want is None:
+                if ok:
+                    raise Violation('negotiation', 'handshake completed '
+                                    'without a common host key algorithm',
+                                    'hostkey-completed-without-common')
+                return CaseResult(labels, True)
+
+            if not ok:
+                raise Violation('negotiation', 'handshake failed (%r) '
+                                'although %s is common' %
+                                (w.exception() if w.done() else 'pending',
+                                 want), 'hostkey-failed-with-common')
+
+            got = parse_reply_algs(h.wire.log['s'])
+
+            if got is None:
+                raise Violation('harness', 'KEX reply not found on the wire',
+                                'hostkey-reply-not-found')
+
+            ktype, sig_alg = got
+            want_type = 'ssh-rsa' if want in HK_ALGS['rsa'] else want
+
+            if sig_alg != want or ktype != want_type:
+                raise Violation(
+                    'negotiation', 'client list %r, server keys %r: server '
+                    'presented a %s key signed with %s; the first client '
+                    'choice the server supports is %s' %
+                    (client_list, case['server_keys'], ktype, sig_alg, want),
+                    'hostkey-wrong-choice')
+            return CaseResult(labels, True)
+        finally:
+            pair.close()
+
+    # independent client: refpeer verifies that the signature algorithm is
+    # the one IT negotiated from the same two lists
+    ref = RefPeer('client', hostkey_algs=[a.encode() for a in client_list])
+    conn = RefConn(ref)
+    link = RefLink(ref, {'server_host_keys': skeys})
+
+    try:
+        link.start()
+        link.pump()
+
+        if want is None:
+            if ref.first_kex_done:
+                raise Violation('negotiation', 'exchange completed without a '
+                                'common host key algorithm',
+                                'hostkey-completed-without-common')
+            return CaseResult(labels, True)
+
+        if link.rp.error or not ref.first_kex_done:
+            raise Violation('negotiation', 'independent client offering %r '
+                            'to a server with keys %r: %s' %
+                            (client_list, case['server_keys'],
+                             link.rp.error), 'hostkey-ref-disagrees')
+
+        if ref.negotiated['hostkey'].decode() != want:
+            raise Violation('harness', 'refpeer negotiated %r, reference %r'
+                            % (ref.negotiated['hostkey'], want),
+                            'hostkey-refpeer')
+        return CaseResult(labels, True)
+    finally:
+        link.close()
+
+
+def hostkey_cases(tier: str):
+    import itertools as it
+    algs = ['ssh-ed25519', 'ecdsa-sha2-nistp256', 'rsa-sha2-256',
+            'rsa-sha2-512', 'ssh-rsa']
+    keysets = [['ed25519'], ['rsa'], ['ed25519', 'rsa'], ['rsa', 'ed25519'],
+               ['ecdsa', 'ed25519'], ['ed25519', 'ecdsa', 'rsa'],
+               ['rsa', 'ecdsa', 'ed25519']]
+    for peer in ('asyncssh', 'ref-client'):
+        for keys in keysets:
+            for n in (1, 2, 3):
+                for client in it.permutations(algs, n):
+                    if n == 3 and tier != 'thorough' and \
+                            client[0] > client[1]:
+                        continue
+                    yield {'peer': peer, 'server_keys': keys,
+                           'client_algs': list(client)}
+
+
 FAMILIES = [
     Family('control', run_edit, enumerate=control_cases, exhaustive=True,
            case_timeout=120),
@@ -626,6 +767,10 @@ FAMILIES = [
                                             'curve448', 'ecdh-nist', 'gex',
                                             'rsa', 'dh-group')
                       for t in ('kexinit', 'kexmsg')]},
+           case_timeout=120),
+    Family('hostkey', run_hostkey, enumerate=hostkey_cases, exhaustive=True,
+           required={'all': ['first-choice', 'later-choice', 'no-common',
+                             'peer:asyncssh', 'peer:ref-client']},
            case_timeout=120),
     Family('prefs', run_prefs, strategy=prefs_strategy,
            budget={'quick': 1500, 'thorough': 15000},
